@@ -52,8 +52,9 @@ meta = {"property": prop, "name": name, "breaks": prop, "needs_to_manifest": not
         "commands": ["git -C /repo worktree add --detach <wt> HEAD", "PYTHONPATH=<wt> python demo.py  (clean)", "git apply patch.diff",
                      "PYTHONPATH=<wt> python demo.py  (changed)", "PYTHONPATH=<wt> python -m pytest -q -p no:cacheprovider --timeout=900 -x",
                      "VERIF_REPO=<wt> ./check <PROP> --tier quick"]}
-if "suite_imported_torchsde_from" in prev:
-    meta["suite_imported_torchsde_from"] = prev["suite_imported_torchsde_from"]
+for keep in ("suite_imported_torchsde_from", "note", "neutralised_by_fix"):
+    if keep in prev:
+        meta[keep] = prev[keep]
 json.dump(meta, open(out + "/meta.json", "w"), indent=1)
 print(f"{prop}-{name}: demo clean={rc_clean} changed={rc_mut} suite=[{suite}] :: {det}")
 PY
